@@ -1,7 +1,7 @@
 (* API entries for the Base32 / SS58 address pipelines of Model/AddrText.v on the concrete codecs. *)
 From Coq Require Import NArith ZArith List String.
 From BU Require Import Base.Exn Base.Val Base.Bytes Gen.Consts Gen.AddrConsts Gen.AddrTextConsts Extract.ApiCommon.
-From BU Require Model.AddrText Lemmas.AddrInst.
+From BU Require Model.AddrText Model.AddrCodecs.
 Import ListNotations.
 Open Scope string_scope.
 
@@ -11,8 +11,8 @@ Definition api (ask : string -> list val -> val) : list api_entry :=
   let b2b := fun (n : nat) b => o_blake2b ask (N.of_nat n) b in
   let b512 := fun b => o_blake2b ask 64%N b in
   let vp := fun (curve : N) b => o_bool ask "valid_pub" [VN curve; VB b] in
-  let enc := AddrInst.b32_enc_nopad in
-  let dec := AddrInst.b32_dec in
+  let enc := AddrCodecs.b32_enc_nopad in
+  let dec := AddrCodecs.b32_dec in
   [
   ("algo_encode", fun a => match a with [VB pub] => rb (AddrText.algo_encode s5 enc pub) | _ => bad_call end);
   ("algo_decode", fun a => match a with [VB s] => rb (AddrText.algo_decode s5 vp enc dec s) | _ => bad_call end);
@@ -25,7 +25,7 @@ Definition api (ask : string -> list val -> val) : list api_entry :=
   ("nim_encode", fun a => match a with [VB pub] => rb (AddrText.nim_encode b2b enc pub) | _ => bad_call end);
   ("nim_decode", fun a => match a with [VB s] => rb (AddrText.nim_decode dec s) | _ => bad_call end);
   ("substrate_encode", fun a => match a with [VN fmt; VB pub] =>
-      rb (AddrText.substrate_encode (AddrInst.ss58_enc b512) fmt pub) | _ => bad_call end);
+      rb (AddrText.substrate_encode (AddrCodecs.ss58_enc b512) fmt pub) | _ => bad_call end);
   ("substrate_decode", fun a => match a with [VN curve; VN fmt; VB s] =>
-      rb (AddrText.substrate_decode vp (AddrInst.ss58_dec b512) curve fmt s) | _ => bad_call end)
+      rb (AddrText.substrate_decode vp (AddrCodecs.ss58_dec b512) curve fmt s) | _ => bad_call end)
 ].
